@@ -166,7 +166,7 @@ package bitmap
 
 //@ func ToArray returns (r)
 //@   requires len(words) < 1<<25
-//@   ensures int32(len(r)) == R(words, len(words))
+//@   ensures int32(len(r)) == R(words, len(words)) && len(r) <= 64*len(words)
 //@   ensures forall k int :: 0 <= k && k < len(r) ==> 0 <= r[k] && int(r[k]) < 64*len(words) && bitAt(words, r[k]) == 1 && rank(words, r[k]) == int32(k)
 //@   ensures forall p int32 :: 0 <= p && int(p) < 64*len(words) && bitAt(words, p) == 1 ==> r[int(rank(words, p))] == p
 //@   ensures fresh(r)
